@@ -12,6 +12,7 @@ import (
 	"os"
 	"sync"
 	"sync/atomic"
+	"syscall"
 	"time"
 
 	dest "github.com/grafana/carbon-relay-ng/destination"
@@ -125,9 +126,9 @@ type relayCase struct {
 	Route    string `json:"route"`    // sendAllMatch | sendFirstMatch | consistentHashing
 	ConnBuf  int    `json:"connbuf"`
 	IOBuf    int    `json:"iobuf"`
-	N        int    `json:"n"`    // lines per phase
-	Size     int    `json:"size"` // bytes per line (without newline)
-	Pace     int    `json:"pace"` // sleep 1ms every Pace lines (0 = never)
+	N        int    `json:"n"`         // lines per phase
+	Size     int    `json:"size"`      // bytes per line (without newline)
+	Pace     int    `json:"pace"`      // sleep 1ms every Pace lines (0 = never)
 	ReconnMs int    `json:"reconn_ms"` // reconnect period (0 = 20 ms)
 }
 
@@ -162,7 +163,7 @@ func runC06(raw json.RawMessage) (interface{}, error) {
 		return nil, err
 	}
 	mode := map[string]string{"healthy": "read", "slow_reader": "slow", "absent": "read", "absent_then_up": "read", "blackhole": "blackhole",
-		"close_midstream": "read", "close_then_traffic": "read", "close_under_traffic": "read", "repoint_blackholed": "blackhole", "two_dests": "blackhole", "spool_backlog_blackhole": "blackhole"}[c.Scenario]
+		"close_midstream": "read", "close_then_traffic": "read", "close_under_traffic": "read", "repoint_blackholed": "blackhole", "repoint_hung": "read", "two_dests": "blackhole", "spool_backlog_blackhole": "blackhole"}[c.Scenario]
 	ep, err := newEndpoint(mode, false)
 	if err != nil {
 		return nil, err
@@ -396,6 +397,15 @@ func runC06(raw json.RawMessage) (interface{}, error) {
 			time.Sleep(50 * time.Millisecond)
 			phase("up", 1000, d, ep3, upSettled(d, ep3, 1000))
 		}
+	case "repoint_hung":
+		// the admin re-points the destination to an endpoint whose TCP handshake hangs (a wedged daemon: accept queue full, SYNs dropped).
+		// Only the update call may wait for the connect; hand-off goes on, and until the connect ends the lines keep reaching the old endpoint
+		phase("up", c.N, d, ep, upSettled(d, ep, c.N))
+		if hung, ok := hungEndpoint(); ok {
+			go r.UpdateDestination(0, map[string]string{"addr": hung})
+			time.Sleep(200 * time.Millisecond)
+		}
+		phase("up", c.N, d, ep, upSettled(d, ep, c.N))
 	case "close_then_traffic":
 		// the endpoint closes while the relay is idle and the reconnect period is long; after the conn has seen the EOF, the very
 		// next pass through the relay loop must retire it (the line that causes that pass still goes to the dead conn: the
@@ -453,4 +463,38 @@ func init() {
 	runners["C06"] = runC06
 	_ = ioutil.Discard
 	_ = os.Stderr
+}
+
+// hungEndpoint returns the address of a loopback listener that never accepts and whose accept queue is full, so that further
+// connection attempts hang in the handshake (linux drops the SYNs); ok is false where such an endpoint cannot be built.
+// The listener and the filler connections stay open until the harness process exits.
+var hungKeep []net.Conn
+
+func hungEndpoint() (string, bool) {
+	fd, err := syscall.Socket(syscall.AF_INET, syscall.SOCK_STREAM, 0)
+	if err != nil {
+		return "", false
+	}
+	if err := syscall.Bind(fd, &syscall.SockaddrInet4{Port: 0, Addr: [4]byte{127, 0, 0, 1}}); err != nil {
+		return "", false
+	}
+	if err := syscall.Listen(fd, 0); err != nil {
+		return "", false
+	}
+	sa, err := syscall.Getsockname(fd)
+	if err != nil {
+		return "", false
+	}
+	addr := fmt.Sprintf("127.0.0.1:%d", sa.(*syscall.SockaddrInet4).Port)
+	for i := 0; i < 32; i++ {
+		cn, err := net.DialTimeout("tcp", addr, 400*time.Millisecond)
+		if err != nil {
+			if ne, isNet := err.(net.Error); isNet && ne.Timeout() {
+				return addr, true
+			}
+			return "", false
+		}
+		hungKeep = append(hungKeep, cn)
+	}
+	return "", false
 }
